@@ -35,13 +35,13 @@ func (prop) Cases(tier string) int {
 func (prop) Info() fw.Info {
 	return fw.Info{
 		Level: "exploration",
-		Rule: "case i = a batch of K sources (quick 6, thorough 20): repository .sysl files that compile (with their directory tree), generated specifications (as C02, with mixin chains, REST trees, events) and specifications that import an OpenAPI-2 .yaml `as App` twice (so the importer fan-out of parseSpecs runs concurrently); each source is compiled twice sequentially (text + JSON bytes must agree), then G goroutines (8..64), each with its own Parser, compile the sources (same source by several goroutines and different sources at once) with PRNG start offsets (Gosched counts) at GOMAXPROCS in {1,2,4,16}; every concurrent result must equal the sequential bytes; after every join the process-global lexer-state map must be empty (verif hook); the race detector's reports are violations. Non-trivial: the batch has >= 4 distinct sources and >= 16 goroutines; distinct by batch content.",
+		Rule: "case i = a batch of K sources (quick 6, thorough 20): repository .sysl files that compile (with their directory tree), generated specifications (as C02, with mixin chains, REST trees, events) and specifications that import an OpenAPI-2 .yaml `as App` twice (so the importer fan-out of parseSpecs runs concurrently); each source is compiled twice sequentially (text + JSON bytes must agree), then G goroutines (8..64), each with its own Parser, compile the sources (same source by several goroutines and different sources at once) with PRNG start offsets (Gosched counts) at GOMAXPROCS in {1,2,4,16}; every concurrent result must equal the sequential bytes; after every join the process-global lexer-state map must be empty (verif hook); the race detector's reports are violations; two cases of the quick tier (every second of the thorough tier) add a churn phase of 64 goroutines x 150 (thorough 1500) compilations of tiny specifications, which stresses creation/deletion in the process-global lexer-state map. Non-trivial: the batch has >= 4 distinct sources and >= 16 goroutines; distinct by batch content.",
 		Assumptions: []string{"text and JSON encoders of pkg/pbutil are the serialisations the property names", "the race detector sees only races on executed paths"},
 		Race:        true,
 		CaseTimeout: 900,
 		MaxWorkers:  8,
 		MaxRSSMB:    6144,
-		CountFloors: map[string]int{"concurrent_compiles": 300, "sequential_pairs": 60, "quiescent_checks": 30},
+		CountFloors: map[string]int{"concurrent_compiles": 300, "sequential_pairs": 60, "quiescent_checks": 30, "churn_compiles": 15000},
 		SetFloors:   map[string]int{"gomaxprocs": 3, "source_kinds": 3},
 	}
 }
@@ -256,6 +256,45 @@ func (prop) Run(ctx *fw.Ctx, i int) fw.Result {
 		}
 		if n := parser.VerifLexerStateCount(); n != 0 {
 			res.Violate("lexer-state|leak-after-concurrent", fmt.Sprintf("%d lexer states left in the global map after %d concurrent compiles were joined", n, G), nil)
+		}
+		res.Count("quiescent_checks", 1)
+	}
+	// churn phase: many short compilations at once. Every compilation creates and deletes
+	// entries of the process-global lexer-state map; the map must survive that (a fatal
+	// error here kills the worker and is attributed to this case by the driver).
+	if i%8 == 1 || (ctx.Thorough() && i%2 == 1) {
+		tiny := []string{
+			"A:\n    !type T:\n        x <: int\n    Ep:\n        if a:\n            B <- Q\n        else:\n            return ok\nB:\n    Q: ...\n",
+			"Long Name App:\n    Do It:\n        for each x in y:\n            one of:\n                c1:\n                    step one\n                c2:\n                    step two\n",
+			"X:\n    /a/{id <: int}:\n        GET ?q=string:\n            | doc\n            return ok <: string\n",
+		}
+		iters := 150
+		if ctx.Thorough() {
+			iters = 1500
+		}
+		var wg sync.WaitGroup
+		errs := make([]string, 64)
+		for g := 0; g < 64; g++ {
+			wg.Add(1)
+			go func(g int) {
+				defer wg.Done()
+				for it := 0; it < iters; it++ {
+					if _, err := parse.NewParser().ParseString(tiny[(g+it)%len(tiny)]); err != nil && errs[g] == "" {
+						errs[g] = err.Error()
+					}
+				}
+			}(g)
+		}
+		wg.Wait()
+		res.Count("churn_compiles", 64*iters)
+		for _, e := range errs {
+			if e != "" {
+				res.Violate("concurrent|error|churn", "a tiny specification that compiles alone failed during a burst of concurrent compilations: "+e, nil)
+				break
+			}
+		}
+		if n := parser.VerifLexerStateCount(); n != 0 {
+			res.Violate("lexer-state|leak-after-churn", fmt.Sprintf("%d lexer states left after the churn phase", n), nil)
 		}
 		res.Count("quiescent_checks", 1)
 	}
